@@ -53,4 +53,8 @@ CREATE INDEX synset_relation_source_index""")]},
         VALUES (null,""")]},
     {'name': 'benign-reorder-checks', 'expect': 'silent',
      'edits': [E(V, "    'W501': _hypernym_wrong_pos,\n    'W502': _self_loop,", "    'W502': _self_loop,\n    'W501': _hypernym_wrong_pos,")]},
+    {'name': 'benign-blank-not-strip', 'expect': 'silent', 'property': 'C18',
+     'edits': [E(V, 'if any(dfn["text"].strip() == "" for dfn in ss.get("definitions", []))', 'if any(not dfn["text"].strip() for dfn in ss.get("definitions", []))')]},
+    {'name': 'blank-example-empty-only', 'expect': 'C18-R6',
+     'edits': [E(V, 'if any(ex["text"].strip() == "" for ex in ss.get("examples", []))', 'if any(ex["text"] == "" for ex in ss.get("examples", []))')]},
 ]
